@@ -443,7 +443,14 @@ where
                 src2.write().map_err(|e| Fail::Harness(format!("src write: {e}")))?;
             }
             "bump_source_version" => {
-                src_version += 1 + us(op, "by") as u32 % 3;
+                // versions may go up or down: any difference must trigger the recompute
+                let by = 1 + us(op, "by") as u32 % 3;
+                if op["down"].as_bool().unwrap_or(false) && src_version > by {
+                    src_version -= by;
+                    stats.bump("probe.source_version_lowered");
+                } else {
+                    src_version += by;
+                }
                 stats.bump("probe.source_version_changed");
             }
             "dest_write" => dest.write().map(|_| ()).map_err(|e| viol("result", format!("write: {e}")))?,
@@ -599,7 +606,7 @@ impl Check for C19Check {
             tag = tag.wrapping_add(2);
             ops.push(match rng.below(10) {
                 0 | 1 => json!({"op":"append","n":*rng.pick(&[1usize, 3, 17, 300]),"tag":tag}),
-                2 | 3 => json!({"op":"bump_source_version","by":rng.below(3)}),
+                2 | 3 => json!({"op":"bump_source_version","by":rng.below(3),"down":rng.chance(1, 3)}),
                 4 => json!({"op":"dest_write"}),
                 5 => json!({"op":"dest_reimport"}),
                 6 => json!({"op":"check_recorded_version_survives"}),
@@ -636,6 +643,6 @@ impl Check for C19Check {
         ]
     }
     fn required_probes(&self) -> Vec<&'static str> {
-        vec!["probe.compute_checked", "probe.compute_after_version_change", "probe.compute_with_unchanged_version", "probe.recorded_version_survived_reimport", "probe.source_version_changed"]
+        vec!["probe.compute_checked", "probe.compute_after_version_change", "probe.compute_with_unchanged_version", "probe.recorded_version_survived_reimport", "probe.source_version_changed", "probe.source_version_lowered"]
     }
 }
